@@ -93,6 +93,12 @@ var families = []family{
 	{"group", "rebalance", 40, func(r *rand.Rand) map[string]int {
 		return map[string]int{"np": pick(r, 1, 2), "nmsg": pick(r, 0, 2), "buf": pick(r, 0, 1), "reterr": pick(r, 0, 1), "hb": pick(r, 2, 3), "shared": pick(r, 0, 1)}
 	}},
+	{"group", "noclaims", 14, func(r *rand.Rand) map[string]int {
+		return map[string]int{"np": pick(r, 1, 2), "nmsg": 0, "buf": pick(r, 0, 1), "reterr": pick(r, 0, 1), "shared": pick(r, 0, 1)}
+	}},
+	{"group", "ctxwait", 16, func(r *rand.Rand) map[string]int {
+		return map[string]int{"np": pick(r, 1, 2), "nmsg": pick(r, 0, 2), "buf": pick(r, 0, 1), "reterr": pick(r, 0, 1), "shared": pick(r, 0, 1)}
+	}},
 	{"group", "nocoord", 12, func(r *rand.Rand) map[string]int {
 		return map[string]int{"np": 1, "nmsg": 0, "buf": pick(r, 0, 1), "reterr": pick(r, 0, 1), "shared": pick(r, 0, 1)}
 	}},
@@ -122,6 +128,15 @@ var families = []family{
 	{"client", "refresh", 6, func(r *rand.Rand) map[string]int { return map[string]int{"refresh": pick(r, 0, 1, 1), "again": pick(r, 1, 2)} }},
 	{"client", "held", 4, func(r *rand.Rand) map[string]int { return map[string]int{"refresh": 1, "again": 1} }},
 	{"client", "down", 6, func(r *rand.Rand) map[string]int { return map[string]int{"refresh": 1, "again": 1} }},
+	{"client", "saslfail", 8, func(r *rand.Rand) map[string]int {
+		return map[string]int{"refresh": 1, "again": 1, "mode": pick(r, 0, 1, 2, 3)}
+	}},
+	{"broker", "saslfail", 0, func(r *rand.Rand) map[string]int {
+		return map[string]int{"again": pick(r, 0, 1), "mode": pick(r, 0, 1, 2, 3), "maxopen": pick(r, 1, 2, 5)}
+	}},
+	{"broker", "saslok", 2, func(r *rand.Rand) map[string]int {
+		return map[string]int{"inflight": pick(r, 0, 1), "nreq": pick(r, 1, 2), "maxopen": pick(r, 2, 5), "again": pick(r, 1, 2), "mode": 9}
+	}},
 	{"broker", "open", 2, func(r *rand.Rand) map[string]int {
 		return map[string]int{"inflight": pick(r, 0, 1, 2), "nreq": pick(r, 1, 2, 3), "maxopen": pick(r, 1, 2, 5), "again": pick(r, 1, 2)}
 	}},
